@@ -246,7 +246,73 @@ fn scenarios(thorough: bool) -> Vec<Scn> {
         }
         v.push(Scn { desc: format!("C19 same-stem-pairs={} mode=write", pairs), tree, argv: vec!["--color".into(), "Never".into(), "--num-threads".into(), "4".into(), ".".into()], want_code: 0, want_files, sweep_only: true, closed_stdout: false });
     }
+    // many files (more than any queue bound a pool could have) and the two smallest thread counts among the 16: every file is
+    // processed and the run ends, whatever the number of workers. Free-running sweep only (400 jobs are beyond a schedule search).
+    for check in [true, false] {
+        let mut tree = Tree::default();
+        let mut want_files = BTreeMap::new();
+        for i in 0..400 {
+            let p = format!("m/f{:03}.lua", i);
+            tree.add(&p, format!("local   x{}  =  {{ 1,2 ,3 }}\n", i).as_bytes());
+            want_files.insert(p, if check { format!("local   x{}  =  {{ 1,2 ,3 }}\n", i).into_bytes() } else { format!("local x{} = {{ 1, 2, 3 }}\n", i).into_bytes() });
+        }
+        tree.add("m/zz-broken.lua", b"local x = = 1\n");
+        want_files.insert("m/zz-broken.lua".into(), b"local x = = 1\n".to_vec());
+        let mut argv: Vec<String> = vec!["--color".into(), "Never".into(), "--num-threads".into(), "4".into()];
+        if check {
+            argv.extend(["--check".to_string(), "--output-format".to_string(), "Summary".to_string()]);
+        }
+        argv.push("m".into());
+        v.push(Scn { desc: format!("C19 many-files=401 mode={}", if check { "check" } else { "write" }), tree, argv, want_code: 2, want_files, sweep_only: true, closed_stdout: false });
+    }
     v
+}
+
+/// Per-thread resources must not depend on the thread count either: the deepest nesting that a run with two threads survives is
+/// found by doubling (on the unchanged tree the parser's recursion overflows a worker's stack somewhere between 100 and 200
+/// nested tables — a crash that C07 knows about and that is the same for every thread count); HALF of the last surviving
+/// depth must then format, with the same bytes, under every thread count. Differential: no expected value is written down.
+fn stack_ladder(fails: &mut Vec<Failure>) -> usize {
+    let tree_for = |d: usize| {
+        let mut t = Tree::default();
+        t.add("deep.lua", format!("local t = {}{}\n", "{".repeat(d), "}".repeat(d)).as_bytes());
+        t.add("other.lua", b"local   y  =  2\n");
+        t
+    };
+    let run = |id: usize, d: usize, nt: usize| {
+        let o = cli::execute(700000 + id, &tree_for(d), &Run { argv: vec!["--color".into(), "Never".into(), "--num-threads".into(), nt.to_string(), "deep.lua".into(), "other.lua".into()], limit_s: 60, ..Run::default() });
+        let files: BTreeMap<String, Vec<u8>> = o.after.iter().filter(|(p, _)| p.ends_with(".lua")).map(|(p, v)| (p.clone(), v.0.clone())).collect();
+        cli::cleanup(&o);
+        (o.code, files)
+    };
+    let mut runs = 0;
+    let mut last_ok = None;
+    let mut d = 16;
+    while d <= 65536 {
+        runs += 1;
+        if run(runs, d, 2).0 != 0 {
+            break;
+        }
+        last_ok = Some(d);
+        d *= 2;
+    }
+    let Some(l) = last_ok else { return runs };
+    let probe = (l / 2).max(8);
+    runs += 1;
+    let reference = run(runs, probe, 2);
+    for nt in [1usize, 3, 4, 8, 16, 32, 64] {
+        runs += 1;
+        let got = run(runs, probe, nt);
+        if got != reference {
+            fails.push(cli::fail(
+                "E3-C19",
+                "thread-count-dependent-result",
+                "C19 nesting-depth ladder",
+                format!("{} nested tables (half of the deepest nesting that --num-threads 2 survives): exit status {} with --num-threads {}, {} with --num-threads 2; files equal: {}", probe, got.0, nt, reference.0, got.1 == reference.1),
+            ));
+        }
+    }
+    runs
 }
 
 struct Explored {
@@ -462,7 +528,8 @@ pub fn c19(thorough: bool, stats: &mut Stats) -> Vec<Failure> {
                 if let Some(p) = argv.iter().position(|a| a == "--num-threads") {
                     argv[p + 1] = nt.to_string();
                 }
-                let o = cli::execute(500000 + k, &sc.tree, &Run { argv, env: vec![("STYLUA_VERIF_FAULTS".into(), "1".into())], close_stdout: sc.closed_stdout, ..Run::default() });
+                let limit_s = if sc.desc.contains("many-files") { 30 } else { 0 };
+                let o = cli::execute(500000 + k, &sc.tree, &Run { argv, env: vec![("STYLUA_VERIF_FAULTS".into(), "1".into())], close_stdout: sc.closed_stdout, limit_s, ..Run::default() });
                 let mut files = BTreeMap::new();
                 for (p, v) in &o.after {
                     if p.ends_with(".lua") || p.ends_with(".luau") {
@@ -482,10 +549,14 @@ pub fn c19(thorough: bool, stats: &mut Stats) -> Vec<Failure> {
             });
         }
     });
+    let mut ladder_fails = vec![];
+    let ladder_runs = stack_ladder(&mut ladder_fails);
+    stats.machinery.insert("nesting-depth ladder (doubling under --num-threads 2, then half the last surviving depth under 1, 3, 4, 8, 16, 32, 64 threads): runs".into(), ladder_runs);
     let _ = std::fs::remove_dir_all(cli::scratch_root());
-    let nsweep = sweep_runs.load(Ordering::Relaxed);
+    let nsweep = sweep_runs.load(Ordering::Relaxed) + ladder_runs;
     stats.transitions += nsweep;
     stats.machinery.insert(format!("free-running sweep (not exhaustive): --num-threads 1..=16 x {} repetitions", reps), nsweep);
     fails.extend(sweep_fails.into_inner().unwrap());
+    fails.extend(ladder_fails);
     fails
 }
